@@ -156,8 +156,8 @@ Proof.
   destruct (ys =? 0); [reflexivity|].
   destruct ((ys =? 1) && (ye =? 0)); [reflexivity|].
   destruct (s =? 0); [reflexivity|]. destruct (s <? 0); [reflexivity|].
-  intros a H Hx. set (wp := p + powf_guard_digits_gen O p) in *.
-  assert (Hwp : p < wp) by (unfold wp, powf_guard_digits_gen; pose proof (usize_nonneg (uint_log2_est O p)); lia).
+  intros a H Hx. set (wp := powf_work_precision_gen O p (powf_guard_digits_gen O p)) in *.
+  assert (Hwp : p < wp) by (unfold wp, powf_work_precision_gen, powf_guard_digits_gen; pose proof (usize_nonneg (uint_log2_est O p)); lia).
   apply rbind_ok in H. destruct H as (l & Hl & H).
   apply rbind_ok in H. destruct H as (t & Ht & H).
   apply rbind_ok in H. destruct H as (r & Hr & H). inversion H; subst a; clear H.
